@@ -352,3 +352,44 @@ Print Assumptions C20_vocabulary_is_dispatch_table.
 Example C20_vocabulary_functionally_modelled :
   length gen_c20_vocab = 46%nat /\ length (filter (fun p => is_fn (snd p)) dispatch) = 25%nat.
 Proof. vm_compute. split; reflexivity. Qed.
+
+(* ============================ how much an aborted transfer can lose =========================== *)
+
+(* When can {size} and what the client received differ?  Only when the client closes the
+   connection before it has read the response: bytes the writer accepted may sit in socket
+   buffers the client never reads ({size} may exceed what was received: inherent), and — the
+   open finding F-C20-6 — the bytes accepted by the call that was cut short are missing from
+   {size}.  On a net/http connection the first failed write makes every later Write fail with 0
+   bytes, so for EVERY script the missing bytes are those of ONE call: at most a whole Write,
+   less than one 32 KiB chunk of a copy; and nothing is missing as long as no call has failed. *)
+Theorem C20_abort_loses_at_most_one_call :
+  forall c ops, w_nethttp c = true -> cuts_within ops = true ->
+  let '((u, r), _) := run c (uw0, rec0) ops return Prop in
+  u_lost u <= max_loss ops /\ (u_dead u = false -> u_lost u = 0).
+Proof. exact abort_loses_one_call. Qed.
+Print Assumptions C20_abort_loses_at_most_one_call.
+
+Example C20_abort_loses_at_most_one_call_nonvacuous :
+  let c := {| w_nethttp := true; w_head := false |} in
+  let ops := [OW 100000 None; OB BCopy 70000 false (Some 40000); OW 8388608 (Some 0); OW 100 (Some 0)] in
+  cuts_within ops = true /\
+  run c (uw0, rec0) ops =
+  (({| u_status := Some 200%Z; u_size := 140000; u_lost := 7232; u_dead := true |},
+    {| r_status := 200%Z; r_size := 132768; r_wrote := true |}), false).
+Proof. vm_compute. split; reflexivity. Qed.
+
+Example C20_source_failures_lose_nothing_nonvacuous :
+  let c := {| w_nethttp := false; w_head := false |} in
+  let ops := [OB BCopy 2000 true None; OB BCopy 3 true None] in
+  head_ok c = true /\ final_codes ops = true /\ uncut ops = true /\
+  snd (fst (run c (uw0, rec0) ops)) = {| r_status := 200%Z; r_size := 2003; r_wrote := true |}.
+Proof. vm_compute. repeat split; reflexivity. Qed.
+
+(* two different interleavings with the same steps of request 1 *)
+Example C20_line_depends_on_own_steps_nonvacuous :
+  let c := {| w_nethttp := true; w_head := false |} in
+  let s1 := [ (1%nat, RStart c); (2%nat, RStart c); (2%nat, RSet (bs "upstream") (bs "two")); (1%nat, RSet (bs "upstream") (bs "one")) ] in
+  let s2 := [ (2%nat, RStart c); (1%nat, RStart c); (1%nat, RSet (bs "upstream") (bs "one")); (3%nat, RStart c); (2%nat, ROp OPanic) ] in
+  proj 1 s1 = proj 1 s2 /\ s1 <> s2 /\
+  option_map q_custom (view (world_run s1 world0) 1%nat) = Some [(bs "{upstream}", bs "one")].
+Proof. vm_compute. repeat split; try reflexivity. discriminate. Qed.
